@@ -141,31 +141,34 @@ def mutate_attr(
         obj = copy.deepcopy(obj)
 
     # Perform actual mutation (if not inplace, `obj` is our own copy; the write
-    # may come back through `__setattr__`, e.g. from a descriptor's setter)
-    try:
-        with _unfrozen(obj, enabled=not inplace):
-            getattr(obj.__setattr__, "__raw__", setattr)(obj, attr, value)
-    except AttributeError as e:
-        if (
-            e.args
-            in (  # Let's make this error less obtuse.
-                ("can't set attribute",),  # Python <3.10
-                ("can't set attribute 'x'",),  # Python ==3.10
-            )
-            or e.args
-            and "object has no setter" in e.args[0]  # Python >=3.11
-        ):
-            raise AttributeError(
-                f"Cannot set `{obj.__class__.__name__}.{attr}` to `{value}`. Is this a property without a setter?"
-            ) from e
-        raise
+    # may come back through `__setattr__`, e.g. from a descriptor's setter).
+    # The write and the invalidation it triggers are one step: if resetting a
+    # dependant fails (its default is prepared by user code), nothing is kept.
+    with _rollback_on_error(obj):
+        try:
+            with _unfrozen(obj, enabled=not inplace):
+                getattr(obj.__setattr__, "__raw__", setattr)(obj, attr, value)
+        except AttributeError as e:
+            if (
+                e.args
+                in (  # Let's make this error less obtuse.
+                    ("can't set attribute",),  # Python <3.10
+                    ("can't set attribute 'x'",),  # Python ==3.10
+                )
+                or e.args
+                and "object has no setter" in e.args[0]  # Python >=3.11
+            ):
+                raise AttributeError(
+                    f"Cannot set `{obj.__class__.__name__}.{attr}` to `{value}`. Is this a property without a setter?"
+                ) from e
+            raise
 
-    # Invalidate any caches depending on this attribute
-    if not skip_invalidation and metadata:
-        invalidation_map = metadata.invalidation_map_for(type(obj))
-        if invalidation_map:
-            with _unfrozen(obj, enabled=not inplace):  # if not inplace, `obj` is our own copy
-                invalidate_attrs(obj, attr, invalidation_map)
+        # Invalidate any caches depending on this attribute
+        if not skip_invalidation and metadata:
+            invalidation_map = metadata.invalidation_map_for(type(obj))
+            if invalidation_map:
+                with _unfrozen(obj, enabled=not inplace):  # if not inplace, `obj` is our own copy
+                    invalidate_attrs(obj, attr, invalidation_map)
 
     return obj
 
